@@ -98,7 +98,7 @@ void MaxSize::rollFiles()
 /// Called to check if the next log message can still be written into the
 /// current log file.<br>
 /// Here, checks if the log file size still allows to write the given log
-/// message into the file.
+/// message, plus the newline character that is appended to it, into the file.
 ///
 /// @param[in]  msg
 ///    Ignored.
@@ -111,13 +111,14 @@ void MaxSize::rollFiles()
 bool MaxSize::writeCheck( const detail::LogMsg&, const std::string& msg_text)
 {
 
-   return mCurrentFilesize + msg_text.length() < mMaxFileSize;
+   return mCurrentFilesize + msg_text.length() + 1 < mMaxFileSize;
 } // MaxSize::writeCheck
 
 
 
 /// Called after the log message was written into the log file. Here, updates
-/// the #mCurrentFilesize variable.
+/// the #mCurrentFilesize variable by the length of the text plus the newline
+/// character that was written after it.
 ///
 /// @param[in]  msg
 ///    Ignored.
@@ -128,7 +129,7 @@ bool MaxSize::writeCheck( const detail::LogMsg&, const std::string& msg_text)
 void MaxSize::written( const detail::LogMsg&, const std::string& msg_text)
 {
 
-   mCurrentFilesize += msg_text.length();
+   mCurrentFilesize += msg_text.length() + 1;
 
 } // MaxSize::written
 
